@@ -395,6 +395,11 @@ func (x *Exec) externCall(f *frame, in ssa.Instruction, callee *ssa.Function, c 
 			rt := callee.Signature.Results().At(0).Type()
 			v.T = x.define(x.fresh("inl"), x.X.sortOf(rt), v.T)
 		}
+		if v.T != "" && callee.Signature.Results().Len() == 1 {
+			// the value returned is a value of the result type (fields read inside the
+			// substituted body carry no range facts of their own)
+			x.assume(st, x.typeInv(callee.Signature.Results().At(0).Type(), v.T, st))
+		}
 		return v, true
 	}
 	return Val{}, false
@@ -430,6 +435,7 @@ func isEffectFree(name string) bool {
 		"context.WithCancel", "context.WithTimeout", "context.WithDeadline", "context.WithValue", "context.WithoutCancel",
 		"(*encoding/base64.Encoding).DecodeString", "(*encoding/base64.Encoding).EncodeToString",
 		"google.golang.org/grpc/metadata.NewIncomingContext", "google.golang.org/grpc/status.FromError",
+		"net.JoinHostPort", "net.SplitHostPort", "google.golang.org/grpc/internal/pretty.ToJSON", "google.golang.org/grpc/internal/pretty.FormatJSON",
 		// xDS dependency manager: registers a cluster subscription inside the manager, returns the unsubscribe function
 		"(*google.golang.org/grpc/internal/xds/xdsdepmgr.DependencyManager).SubscribeToCluster",
 	} {
